@@ -36,6 +36,13 @@ LEVEL = {
             "otherwise), and tree_conservation by induction over the spawned family: all trajectories from one initial condition sum to the initial weight; "
             "tensor structure of from_quadrature forests (total weight = product of level sums = 1). Child start point / parent untouched: checked on the "
             "implementation (hop on clone, batches)", "7 C10", NOTE, "Lean 4 theorems (list accounting, induction over a nested family tree) + op-sequence correspondence + batch oracle"),
+    "C12": ("proof", "Lean theorems about the hidden state: the k-th threshold used is the k-th element of (user list ++ generator stream); the repaired "
+            "__deepcopy__ shares a store location between clone and original only through attributes named in shallow_only (the queue); equal states "
+            "evolve equally for any step function and any number of steps; SeedSequence.spawn bookkeeping (keys distinct, prefix-stable, never repeated "
+            "- from C19); counterexample theorem: the originally pinned value test raises for every object holding an array. Reproducibility of whole "
+            "batches, batch-size independence, clone continuation and an attribute-graph scan for shared memory are checked on the implementation for "
+            "every class and both stores. Statistical independence of numpy streams is numpy's contract", "7 C12", NOTE,
+            "Lean 4 theorems (store/location model of deepcopy, list lemmas) + implementation oracles on clones and batches"),
     "C14": ("proof", "Lean refinement of the YAML store to 'a plain list of snapshots', for every page size >= 1 and every history: collect = append "
             "(invariant preserved, all file operations succeed), len, indexing incl. negative indices and IndexError, reload reproduces the object state "
             "(also at exact multiples of the page size), in-memory store refines the same list (stores_agree for every index), clone holds the same "
